@@ -1,13 +1,10 @@
 /-
 C10, totals — "an agent's episode total is the sum of its step rewards": across resets (a new episode starts from 0), for
 agents without reward components, at every point of an episode (a total read mid-episode is the sum so far); the weighted-sum
-law over an arbitrary commutative ring; and what IEEE arithmetic keeps of both sums (forward rounding bound over an abstract
-rounding function, Lemmas/RewardRounding.lean).
+law over an arbitrary commutative ring. (What IEEE arithmetic keeps of both sums: Props/C10Float.lean.)
 -/
 import PrimaiteModel.Props.C10
 import PrimaiteModel.Lemmas.RewardExc
-import PrimaiteModel.Lemmas.RewardRounding
-import Mathlib.Algebra.Order.Field.Rat
 namespace Primaite.Reward
 open Primaite.RewardGraph
 
@@ -71,6 +68,10 @@ theorem C10_total_restarts_after_reset (σ : List Name → List Name) (hσ : Set
     obtain ⟨a', ha', hl, _, ht, _⟩ := hf n hn
     exact ⟨a', ha', hl, ht⟩
 
+/-- non-vacuity: the example configuration of Props/C10.lean resets to a loaded game (order as after `from_config`), whatever
+state dictionary `reset` is handed -/
+example : (resetEnv id exCfgs (.dict [(.str "network", .none)])).toOption.map (·.order) = some ["g1", "g2", "blue"] := by decide
+
 /-! ## 2. A total read mid-episode is the sum so far -/
 
 /-- At every point of an episode — after the first `k` steps of a longer run — every agent's `total_reward` is the sum of the
@@ -112,6 +113,10 @@ theorem C10_no_components_zero (steps : List ((Name → Item) × SimState)) :
     have ht1 : a1.total = 0 := by rw [htot1, ht, hcur1]; exact Rat.add_zero 0
     obtain ⟨g', hrun, a', ha', h1, h2, h3⟩ := ih g1 wf1 n a1 ha1 hcomps1 ht1 hcur1
     exact ⟨g', by simp only [run, hok]; exact hrun, a', ha', h1, h2, h3⟩
+
+/-- non-vacuity: a loaded game with an agent without components (and one sharing from it) -/
+example : ((fromConfig id [{ ref := "idle", comps := [] }, { ref := "b", comps := [(.shared "idle", 1), (.actionPenalty (-1) 0, 1)] }]).toOption.bind
+    (fun g => g.agents.lookup "idle")).map (fun a => (a.comps.length, a.total, a.current)) = some (0, 0, 0) := by decide +kernel
 
 /-! ## 4. The weighted sum over any commutative ring -/
 
@@ -161,41 +166,5 @@ theorem C10_weighted_sum_instance (s : SimState) (it : Item) (cur : Name → Val
 /-- non-vacuity: the same loop over `Int` (another commutative ring), three components, weights 2, −1, 0 -/
 example : (updateCompsG (· + ·) (· * ·) (fun (c : Int) => (c * c, c + 1)) (0 : Int) [(3, 2), (4, -1), (5, 0)]) =
     (2, [(4, 2), (5, -1), (6, 0)]) := by decide
-
-/-! ## 5. What floating-point arithmetic keeps of the two sums -/
-
-theorem rounding_sum_eq (l : List Val) : Rounding.sum l = l.sum := by
-  induction l with
-  | nil => rfl
-  | cons t ts ih => simp only [Rounding.sum, List.sum_cons, ih]
-
-/-- **Step reward in rounded arithmetic.** Let `fl` be ANY rounding function with relative error at most `u`
-(`|fl x − x| ≤ u·|x|`; IEEE doubles: `u = 2⁻⁵³`). The loop of `RewardFunction.update` carried out in that arithmetic —
-`acc ← fl (acc + fl (w · c))` over the model's components in the model's order — ends within
-`((1+u)ⁿ⁺¹ − 1) · Σ|wᵢ·cᵢ|` of the exact weighted sum the model computes. (The rig uses exactly this factor.) -/
-theorem C10_float_weighted_sum_error (fl : Val → Val) (u : Val) (hu : 0 ≤ u) (hfl : ∀ x, |fl x - x| ≤ u * |x|)
-    (s : SimState) (it : Item) (cur : Name → Val) (comps : List (Comp × Val)) :
-    |Rounding.flWeightedFold fl 0 (comps.map (fun cw => (cw.2, (calcComp s it cur cw.1).1))) - (updateComps s it cur 0 comps).1| ≤
-      ((1 + u) ^ (comps.length + 1) - 1) *
-        Rounding.sumAbs (comps.map (fun cw => cw.2 * (calcComp s it cur cw.1).1)) := by
-  have h := Rounding.flWeightedFold_error fl u hu hfl (comps.map (fun cw => (cw.2, (calcComp s it cur cw.1).1)))
-  rw [List.map_map, List.length_map, rounding_sum_eq] at h
-  rw [C10_weighted_sum]
-  exact h
-
-/-- **Episode total in rounded arithmetic.** `total_reward += current_reward` carried out with rounding, over the step
-rewards `r₁ … rₙ` of an episode, ends within `((1+u)ⁿ − 1) · Σ|rₖ|` of their exact sum. -/
-theorem C10_float_total_error (fl : Val → Val) (u : Val) (hu : 0 ≤ u) (hfl : ∀ x, |fl x - x| ≤ u * |x|) (rs : List Val) :
-    |Rounding.flSum fl 0 rs - rs.sum| ≤ ((1 + u) ^ rs.length - 1) * Rounding.sumAbs rs := by
-  rw [← rounding_sum_eq]
-  exact Rounding.flSum_error fl u hu hfl rs
-
-/-- non-vacuity: exact arithmetic is such an `fl` (with `u = 0`, the bound is 0: the rounded loop IS the weighted sum), and a
-genuinely rounding `fl` exists for every `u ≥ 0` (`fl x = x·(1+u)`) -/
-example : ∀ x : Val, |id x - x| ≤ 0 * |x| := by intro x; simp
-example (u : Val) (hu : 0 ≤ u) : ∀ x : Val, |x * (1 + u) - x| ≤ u * |x| := by
-  intro x
-  have : x * (1 + u) - x = u * x := by ring
-  rw [this, abs_mul, abs_of_nonneg hu]
 
 end Primaite.Reward
